@@ -79,7 +79,18 @@ TReload ==
     /\ Rec[l].tok = toks[Rec[l].from].tok
     /\ UNCHANGED toks
 
-TraceNext == TReset \/ TRequest \/ TBuild \/ TAppend \/ TAppendTP \/ TSeal \/ TRefused \/ TReload
+\* a BYTE-LEVEL VARIANT of a token's serialization (bit flips, truncations, insertions, protobuf
+\* re-encodings, another root key id) was ACCEPTED by an entry point under the token's root key: what was
+\* accepted carries exactly the same signed blocks and proof (C01), in whichever mode the entry point works
+TAdmit ==
+    /\ IsEvent("admit")
+    /\ Rec[l].from \in 1..Len(toks)
+    /\ LET src == toks[Rec[l].from] IN
+       /\ SameSigned(Rec[l].tok, src.tok)
+       /\ VerifyMode(Rec[l].tok, src.root, Rec[l].mode)
+    /\ UNCHANGED toks
+
+TraceNext == TReset \/ TRequest \/ TBuild \/ TAppend \/ TAppendTP \/ TSeal \/ TRefused \/ TReload \/ TAdmit
 
 TraceSpec == TraceInit /\ [][TraceNext]_tvars
 
